@@ -21,7 +21,10 @@ SynFilterRoutes == {"output", "if_cond", "elif_cond", "for_iter", "with_pair", "
                     "macro_default", "macro_arg", "call_arg", "subscript", "array_item", "include_name",
                     "include_pair", "cycle_arg", "firstof_arg", "ifequal_arg", "ifnotequal_arg",
                     "widthratio_arg", "ifchanged_arg", "filtertag_chain", "filtertag_chain_second",
-                    "after_param_filter", "in_parens", "binary_operand", "nested_body"}
+                    "after_param_filter", "in_parens", "binary_operand", "nested_body",
+                    \* positions the grammar of today does not admit (a chain directly behind a closing bracket, behind a subscript):
+                    \* whether or not they compile when nothing is banned, a banned name written there never does
+                    "after_parens", "after_subscript"}
 \* which file the use is written in
 FileRoutes == {"same", "static_include", "lazy_include", "parent", "grandparent", "import", "ssi_parsed",
                "include_in_include", "from_file", "from_cache",
